@@ -271,6 +271,24 @@ Proof.
   split; [reflexivity|]. split; [exact Ec|]. split; [lia|]. split; [exact HS|]. subst x1 x2. split; assumption.
 Qed.
 
+Lemma tokens_for_position_iff p c lp :
+  PairInv p -> (is_ok (ep_remove p c lp 1 1) = true <-> remove_guards p c lp).
+Proof.
+  intros Hinv. split.
+  - destruct (ep_remove p c lp 1 1) as [[[p' o] e]|] eqn:E; [|discriminate].
+    intros _. eapply tokens_for_position_guards; eauto.
+  - intros G. destruct (tokens_for_position_live p c lp Hinv G) as (p' & ->). reflexivity.
+Qed.
+
+Lemma amount_out_refuses p c tin ain tout mn :
+  PairInv p -> (forall y, get_amount_out p tin ain = Ok y -> y = 0) ->
+  is_ok (ep_swap_in p c tin ain tout mn) = false.
+Proof.
+  intros Hinv H. destruct (get_amount_out p tin ain) as [y|er] eqn:E.
+  - rewrite (H y eq_refl) in E. eapply amount_out_zero; eauto.
+  - eapply amount_out_err; eauto.
+Qed.
+
 End PairQ.
 
 (** ================================================================== dex/farm *)
@@ -421,22 +439,33 @@ Proof.
 Qed.
 
 (** F3: the literal statement "quote = payment" fails as soon as the claimer has boosted rewards pending.
-    Two stakers, boosted yields 25 %, one week passes (history replayed on the real contract by
-    tools/props/c20.py): the view answers 54, claimRewards pays 54 + 9. *)
+    The history below is executed on the real farm-staking contract by tools/props/c20.py (corpus entry
+    "f3-pending-boosted": two stakers of 10^8, boosted yields 25 %, energies 9800/100 and 4900/350, both
+    claim at block 20 in week 1); at block 30 in week 2 the real view answers 3750 for user 2's position
+    and the real claimRewards pays 4791 = 3750 + 1041 boosted. *)
 Definition f3_state : stk :=
-  srun (init_stk 1000000000000 2500 10)
-       [SSetRate 10 OWNER 100; SSetState OWNER 1; STopUp OWNER 1000000000; SStart 10 OWNER;
+  srun (init_stk 1000000000000 1000000 10)
+       [SSetRate 10 OWNER 1000; SSetState OWNER 1; STopUp OWNER 1000000000; SStart 10 OWNER;
         SSetPct 10 OWNER 2500; SSetFactors OWNER;
         SStake 10 5 1 100000000 0 0; SStake 10 5 2 100000000 0 0;
-        SClaim 18 12 1 100000000 27 0].
+        SClaim 20 5 1 100000000 3750 0; SClaim 20 5 2 100000000 3750 0].
 
 Lemma staking_refuted :
   exists s blk ep c x arps b s' nn v paid,
     claim s blk ep c x arps b = Ok (s', [nn; x; paid]) /\ calc_rewards s blk x arps = Ok v /\ v <> paid.
 Proof.
-  exists f3_state, 26, 19, 2, 100000000, 0, 9.
+  exists f3_state, 30, 12, 2, 100000000, 37500000, 1041.
   eexists. eexists. eexists. eexists.
   split; [vm_compute; reflexivity|]. split; [vm_compute; reflexivity|]. vm_compute. discriminate.
+Qed.
+
+(** any difference between payment and quote is EXACTLY the claimer's boosted reward *)
+Lemma staking_difference s blk ep c x arps b s' nn amt paid v :
+  claim s blk ep c x arps b = Ok (s', [nn; amt; paid]) -> calc_rewards s blk x arps = Ok v ->
+  paid - v = b /\ 0 <= b /\ amt = x.
+Proof.
+  intros H Hv. apply staking_rewards_base in H. destruct H as (base & n2 & Hb & Ho & Hb0).
+  rewrite Hv in Hb. inversion Hb; subst base. inversion Ho; subst. split; [lia|]. split; [exact Hb0 | reflexivity].
 Qed.
 
 End StkQ.
@@ -493,6 +522,59 @@ Proof.
   intros HI Hv. destruct (ep_reduce s c e amt le) as [[s' o]|] eqn:E; [|reflexivity].
   apply (penalty_reduce b0) in E; auto. destruct E as (pen & Hp & _). congruence.
 Qed.
+
+(** conversely: a quote below the amount IS what unlockEarly charges whenever the caller holds the
+    token, it is still locked and the factory is not paused *)
+Lemma penalty_unlock_early_live b0 s c e amt pen :
+  Inv b0 s -> c <> UNSTAKE -> paused s = false -> 0 < e -> l_now s < e -> 0 < amt <= bal (l_led s) c e ->
+  get_penalty_amount s amt (prev_epochs s e) 0 = Ok pen -> pen < amt ->
+  exists s', ep_unlock_early s c e amt = Ok (s', []) /\
+    l_q s' = l_q s ++ [mkE c (l_now s + c_unbond (l_cfg s)) e amt (amt - pen)].
+Proof.
+  intros HI Hc Hp He Hn Ha Hv Hlt. pose proof HI as [Io Ic Inn Ieb Iel Iet Ien Itl Isu Iba Ilo Ipo].
+  unfold get_penalty_amount, prev_epochs in Hv.
+  assert (Htl : amt <= tl_of s c).
+  { rewrite (Itl c Hc). unfold held_locked.
+    assert (Hle : bal (l_led s) c e <= tot (fun h' t => (h' =? c) && (0 <? t)) (l_led s)).
+    { unfold bal. apply tot_le; [exact Inn|]. intros h t E. apply andb_prop in E. destruct E as [E1 E2].
+      apply Z.eqb_eq in E2. subst t. rewrite E1. simpl. apply Z.ltb_lt. lia. }
+    lia. }
+  unfold ep_unlock_early, is_user. destruct (Z.eqb_spec c UNSTAKE); [contradiction|]. rewrite Hp. cbn [negb].
+  assert (E1 : (0 <? e) && (0 <? amt) = true) by (apply andb_true_intro; split; apply Z.ltb_lt; lia). rewrite E1.
+  unfold s_debit, debit.
+  assert (E2 : (amt <=? bal (l_led s) c e) = true) by (apply Z.leb_le; lia). rewrite E2. cbn [bind].
+  unfold reduce_common. red_state. unfold paused, opts. red_state. fold (paused s). rewrite Hp. cbn [negb].
+  assert (E3 : (l_now s <? e) = true) by (apply Z.ltb_lt; lia). rewrite E3. cbv zeta.
+  assert (E4 : (0 <? e - l_now s) = true) by (apply Z.ltb_lt; lia). rewrite E4.
+  unfold tl_sub, sub_chk, tl_of in *. red_state.
+  assert (E5 : (bal (l_tl s) c 0 <? amt) = false) by (apply Z.ltb_ge; lia). rewrite E5. cbn [bind].
+  fold (opts s). rewrite Hv. cbn [bind].
+  assert (E6 : (0 <? amt) = true) by (apply Z.ltb_lt; lia). rewrite E6.
+  assert (E7 : (pen <? amt) = true) by (apply Z.ltb_lt; lia). rewrite E7.
+  eexists. split; [reflexivity|]. red_state. reflexivity.
+Qed.
+
+Lemma penalty_quote :
+  (forall s c e amt s' o, ep_unlock_early s c e amt = Ok (s', o) ->
+     exists pen,
+       get_penalty_amount s amt (prev_epochs s e) 0 = Ok pen /\ pen < amt /\
+       l_q s' = l_q s ++ [mkE c (l_now s + c_unbond (l_cfg s)) e amt (amt - pen)] /\
+       g_bmint (l_g s') = g_bmint (l_g s) + (amt - pen) /\
+       bal (l_led s') UNSTAKE 0 = bal (l_led s) UNSTAKE 0 + (amt - pen)) /\
+  (forall b0 s c e amt le s' o, Inv b0 s -> ep_reduce s c e amt le = Ok (s', o) ->
+     exists pen,
+       get_penalty_amount s amt (prev_epochs s e) (new_epochs_reduce s le) = Ok pen /\ 0 <= pen < amt /\
+       o = [l_now s + new_epochs_reduce s le; amt - pen] /\
+       0 < new_epochs_reduce s le < prev_epochs s e).
+Proof. split; [exact penalty_unlock_early | exact penalty_reduce]. Qed.
+
+Lemma penalty_errors :
+  (forall s c e amt er, get_penalty_amount s amt (prev_epochs s e) 0 = Err er ->
+     is_ok (ep_unlock_early s c e amt) = false) /\
+  (forall b0 s c e amt le er, Inv b0 s ->
+     get_penalty_amount s amt (prev_epochs s e) (new_epochs_reduce s le) = Err er ->
+     is_ok (ep_reduce s c e amt le) = false).
+Proof. split; [exact penalty_err_unlock_early | exact penalty_err_reduce]. Qed.
 
 End PenQ.
 
@@ -565,4 +647,34 @@ Proof.
   unfold current_price in Hp. apply calculate_price_spec in Hp. destruct Hp as [_ Hp]. cbn in Hp. lia.
 Qed.
 
+Lemma phase_price_quote :
+  (forall s c tok amt s' o, ep_deposit s c tok amt = Ok (s', o) ->
+     exists ph price,
+       current_phase s = Ok ph /\ deposit_allowed ph = true /\ current_phase s' = Ok ph /\
+       current_price s' = Ok price /\
+       (tok = TOK_L -> p_ab s = 0 \/ c_minp (p_cfg s) <= price)) /\
+  (forall s c n amt s' o, ep_withdraw s c n amt = Ok (s', o) ->
+     exists ph price,
+       current_phase s = Ok ph /\ withdraw_allowed ph = true /\ current_phase s' = Ok ph /\
+       o = [amt - amt * penalty_of ph / MAXP] /\
+       current_price s' = Ok price /\ c_minp (p_cfg s) <= price) /\
+  (forall s c n amt s' o, ep_redeem s c n amt = Ok (s', o) -> current_phase s = Ok PhRedeem).
+Proof. split; [exact deposit_quote | split; [exact withdraw_quote | exact redeem_quote]]. Qed.
+
 End PdQ.
+
+(** ================================================================== quoting never changes state
+    In the model a view returns a value and no state.  The two reward views settle a storage cache
+    before they compute; that cache is dropped with the query, and it is the very cache the next
+    claimRewards in the same block settles and commits. *)
+Lemma views_pure :
+  (forall f blk ep c n0 x0 adds b f' o,
+     FarmInv.FarmAcc f -> Farm.ep_claim f blk ep c (n0, x0) adds b = Ok (f', o) ->
+     exists f1 f2 fv,
+       Farm.pay_all f c ((n0, x0) :: adds) = Ok f1 /\ Farm.settle f1 blk = Ok f2 /\
+       QFarm.query_cache f blk = Ok fv /\ FarmInv.same_but_toks fv f2) /\
+  (forall s blk ep c x arps b s' o,
+     QStk.claim s blk ep c x arps b = Ok (s', o) ->
+     exists s1 s2 r, QStk.query_cache s blk = Ok s1 /\ Staking.pay s1 r b = Ok s2 /\
+                     s' = Staking.bump s2 /\ o = [Staking.s_next s2; x; r]).
+Proof. split; [exact FarmQ.farm_query_settlement | exact StkQ.staking_query_settlement]. Qed.
